@@ -110,7 +110,7 @@ Qed.
 (* dephasing: c(|g><g| - |r><r|) in emulator order, c = sqrt(rate/2); Pulser defines 2c |r><r| (ising)
    resp. 2c |d><d| (XY): the emulator operator is  c*Id - (that operator in emulator order)  for dim 2 *)
 Definition dephasing_emu (dim : nat) (c : A) : @mat A :=
-  mset K dim (mset K dim (zeros K dim) 0 0 c) 1 1 (- c).
+  mbuild dim (fun a b => if Nat.eqb a b then (if Nat.eqb a 1 then - c else c) else 0).
 
 Lemma dephasing_table : forall rb (nm : @noise_model A) ising dim, dim_ok dim ->
   str_in "dephasing" (nm_types nm) = true ->
@@ -121,21 +121,21 @@ Proof.
     destruct (nm_hyperfine_nonzero nm); reflexivity.
 Qed.
 
-Lemma dephasing_qubit_shift : forall (nm : @noise_model A) ising,
-  [dephasing_emu 2 (nm_c_deph nm)] =
-  map (fun P => msub K 2 (mscale K 2 (nm_c_deph nm) (mid K 2)) (to_emu_basis K ising 2 P))
-      (pulser_ops K "dephasing" nm ising 2).
+Lemma dephasing_shift : forall (nm : @noise_model A) ising dim, dim_ok dim ->
+  [dephasing_emu dim (nm_c_deph nm)] =
+  map (fun P => msub K dim (mscale K dim (nm_c_deph nm) (mid K dim)) (to_emu_basis K ising dim P))
+      (pulser_ops K "dephasing" nm ising dim).
 Proof.
-  intros nm [|]; norm; mat_eq.
+  intros nm [|] dim [-> | ->]; norm; mat_eq.
 Qed.
 
-(* same Lindblad dissipator (qubit case), c real *)
-Lemma dephasing_qubit_same_dissipator : forall (nm : @noise_model A) ising rho,
-  rconj K (nm_c_deph nm) = nm_c_deph nm -> has_shape 2 rho = true ->
-  dissip2_sum K 2 [dephasing_emu 2 (nm_c_deph nm)] rho =
-  dissip2_sum K 2 (map (to_emu_basis K ising 2) (pulser_ops K "dephasing" nm ising 2)) rho.
+(* same Lindblad dissipator (dims 2 and 3, every rho), c real *)
+Lemma dephasing_same_dissipator : forall (nm : @noise_model A) ising dim rho, dim_ok dim ->
+  rconj K (nm_c_deph nm) = nm_c_deph nm -> has_shape dim rho = true ->
+  dissip2_sum K dim [dephasing_emu dim (nm_c_deph nm)] rho =
+  dissip2_sum K dim (map (to_emu_basis K ising dim) (pulser_ops K "dephasing" nm ising dim)) rho.
 Proof.
-  intros nm ising rho Hc Hs. shape_destruct Hs.
+  intros nm ising dim rho [-> | ->] Hc Hs; shape_destruct Hs;
   destruct ising; norm; conj_norm; rewrite ?Hc; conj_norm; mat_eq.
 Qed.
 
@@ -361,19 +361,21 @@ Proof.
   repeat split; try reflexivity. vm_compute. discriminate.
 Qed.
 
-(* dephasing with the leakage level: the emulator's c(|g><g|-|r><r|) is NOT the process Pulser
-   defines (2c |r><r|): the coherence <g|rho|x> is damped by the emulator, untouched by Pulser *)
+(* regression (fixed in /repo 6810dc4): the FORMER qutrit operator c(|g><g|-|r><r|) with 0 on x was not the
+   process Pulser defines: the coherence <g|rho|x> was damped by it, untouched by Pulser's 2c|r><r|; the
+   current operator (c on x) leaves it untouched as well *)
 Definition witness_deph : @noise_model Zi :=
   mk_nm ["dephasing"; "eff_noise"; "leakage"] (0,0)%Z (1,0)%Z false (0,0)%Z [] [].
 
-Lemma dephasing_qutrit_differs :
-  exists rho : @mat Zi,
-    has_shape 3 rho = true /\
-    dissip2_sum zi_ring 3 (map (to_emu_basis zi_ring true 3) (pulser_ops zi_ring "dephasing" witness_deph true 3)) rho
-      = zeros zi_ring 3 /\
-    (exists L, get_lindblad_operators zi_ring RebaseFlipBlock "dephasing" witness_deph true 3 = Ok [L] /\
-               dissip2_sum zi_ring 3 [L] rho <> zeros zi_ring 3).
+Lemma dephasing_qutrit_regression :
+  let rho := unit_mat zi_ring 3 0 2 (1,0)%Z in
+  let old_op := mset zi_ring 3 (mset zi_ring 3 (zeros zi_ring 3) 0 0 (1,0)%Z) 1 1 (-1,0)%Z in
+  dissip2_sum zi_ring 3 (map (to_emu_basis zi_ring true 3) (pulser_ops zi_ring "dephasing" witness_deph true 3)) rho
+    = zeros zi_ring 3 /\
+  dissip2_sum zi_ring 3 [old_op] rho <> zeros zi_ring 3 /\
+  (exists L, get_lindblad_operators zi_ring RebaseFlipBlock "dephasing" witness_deph true 3 = Ok [L] /\
+             dissip2_sum zi_ring 3 [L] rho = zeros zi_ring 3).
 Proof.
-  exists (unit_mat zi_ring 3 0 2 (1,0)%Z). split; [reflexivity|]. split; [vm_compute; reflexivity|].
-  eexists; split; [vm_compute; reflexivity|]. vm_compute. discriminate.
+  cbv zeta. split; [vm_compute; reflexivity|]. split; [vm_compute; discriminate|].
+  eexists; split; vm_compute; reflexivity.
 Qed.
